@@ -1,7 +1,7 @@
 --------------------------- MODULE AlgoTrace ---------------------------
 (* Trace validation for the algorithm family.  Every event recorded from the real templates         *)
-(*   [op, inst, a, b, m, v, c, oa, ob, od, oc, r, p, cz]                                             *)
-(* is judged by Post / PredOK of AlgoOps (kinds "post", "pred-range", "canary"; "stable-doc" for an   *)
+(*   [op, inst, a, b, m, v, c, oa, ob, od, oc, r, p, cz] (+ optional flags sm, hang)                  *)
+(* is judged by Post / PredOK of AlgoOps (kinds "post", "pred-range", "canary", "selfmove"; "stable-doc" for an *)
 (* algorithm whose own documentation promises stability).  Deviations are printed as DEV lines, not   *)
 (* fatal ("hang" / "crash": the call did not return within the watchdog's CPU budget / raised a     *)
 (* fault signal; the driver abandons that group and goes on).  Independently the                     *)
@@ -29,6 +29,9 @@ Judge(ev) ==
     ELSE IF ev.op \notin AllOps THEN "harness-op"
     ELSE IF ~InDom(ev.op, ev) THEN "harness-domain"
     ELSE IF "hang" \in DOMAIN ev THEN (IF ev.hang = 2 THEN "crash" ELSE "hang")   \* the call did not return / faulted
+    \* the element type's move assignment is self-hostile (x = move(x) leaves x moved-from, as a real handle
+    \* type would) and the driver flags such a call; no std algorithm self-move-assigns (calibrated)
+    ELSE IF "sm" \in DOMAIN ev THEN "selfmove"
     ELSE IF ~Post(ev.op, ev, Out(ev)) THEN "post"
     ELSE IF ~PredOK(ev, ev.p) THEN "pred-range"
     ELSE IF ev.cz # 1 THEN "canary"
